@@ -443,7 +443,20 @@ def cls_index(ex, o):
         return t.as_long()
     if ex.spec_mode:
         raise Unsupported('class of a pooled object needed in a specification (use is_instance_of)')
-    return ex.decide([t == j for j in range(len(pool.classes))], 'class of pooled object')
+    conds = [t == j for j in range(len(pool.classes))]
+    if ex.pos >= len(ex.prefix):
+        # the class may be fixed by a quantified hypothesis (e.g. "every channel of this connection is an LE channel"),
+        # which the inline feasibility check does not use: ask with the whole path condition
+        live = []
+        for c in conds:
+            s_ = z3.Solver()
+            s_.set('timeout', 2000)
+            for p in ex.pc:
+                s_.add(p)
+            s_.add(c)
+            live.append(c if s_.check() != z3.unsat else z3.BoolVal(False))
+        conds = live
+    return ex.decide(conds, 'class of pooled object')
 
 
 def deref(ex, o, what):
